@@ -1,5 +1,6 @@
 import Driver.Proto
 import Model.RBTreeChecked
+import Model.RBHeap
 open Proto RB
 
 /-- two trees per history (`swap` exchanges them; all other operations act on `tree`), sharing the compare function -/
@@ -7,6 +8,10 @@ structure DState where
   div10 : Bool
   tree : Tree Int Int
   other : Tree Int Int := Tree.empty
+  /-- the pointer-level model (`Model/RBHeap.lean`) of the same two trees, run in lock-step; `none` = it dereferenced
+      `nil` or ran out of fuel earlier in this history -/
+  heap : Option (PTree Int Int) := some PTree.empty
+  oheap : Option (PTree Int Int) := some PTree.empty
 
 /-- visitor of the harness: record the entry, continue while fewer than `j` entries have been visited -/
 def visitor (j : Nat) (s : Nat × List (Int × Int)) (k v : Int) : (Nat × List (Int × Int)) × Bool :=
@@ -37,6 +42,28 @@ def dumpT : T Int Int → String
   | .node c l k v r =>
     "(" ++ (if c = .red then "r" else "b") ++ toString k ++ ":" ++ toString v ++ " " ++ dumpT l ++ " " ++ dumpT r ++ ")"
 
+def eqT : T Int Int → T Int Int → Bool
+  | .nil, .nil => true
+  | .node c l k v r, .node c' l' k' v' r' => c == c' && k == k' && v == v' && eqT l l' && eqT r r'
+  | _, _ => false
+
+/-- does the pointer-level model describe the functional tree `t` (links read off with every parent link checked,
+    `count` equal)? -/
+def heapAgrees (h : Option (PTree Int Int)) (t : Tree Int Int) : Bool :=
+  match h with
+  | none => false
+  | some h => h.count == t.count && (match h.abs with | some x => eqT x t.root | none => false)
+
+/-- lock-step policy: the full comparison after every mutation while the tree is small, the count and the presence of
+    a root always; big trees are compared in full at every `dump` / `inv` line -/
+def heapVerdict (h : Option (PTree Int Int)) (t : Tree Int Int) : String :=
+  match h with
+  | none => " HEAP-MODEL-NIL-DEREF"
+  | some p =>
+    if p.count != t.count || p.root.isSome != (t.count != 0) then " HEAP-MODEL-SPLIT"
+    else if t.count ≤ 40 && !heapAgrees h t then " HEAP-MODEL-SPLIT"
+    else ""
+
 /-- The trailing ` c=N` is the model's own number of compare calls; the check strips it (exact counts are not part of
     the property) and keeps it as an informational statistic.  `cmp-ok` is the constant verdict of the comparison
     bound (the model meets it by `C06.compares_run`).
@@ -51,19 +78,28 @@ def step (st : DState) (line : String) : DState × String :=
   match words line with
   | ["reset", m] => ({ div10 := m == "div10", tree := Tree.empty }, "ok")
   | ["reset", m, _] => ({ div10 := m == "div10", tree := Tree.empty }, "ok")
-  | ["swap"] => ({ st with tree := st.other, other := st.tree }, "ok")
+  | ["swap"] => ({ st with tree := st.other, other := st.tree, heap := st.oheap, oheap := st.heap }, "ok")
   | ["ins", k, v] =>
     match parseInt? k, parseInt? v with
     | some k, some v =>
       match t.insertC cmp k v with
-      | some (t', c) => ({ st with tree := t' }, "done cmp-ok c=" ++ toString c)
+      | some (t', c) =>
+        let hp := st.heap
+        let st := { st with heap := none }
+        let hp := hp.bind (·.insert cmp k v)
+        let verdict := heapVerdict hp t'
+        ({ st with tree := t', heap := hp }, "done" ++ verdict ++ " cmp-ok c=" ++ toString c)
       | none => (st, "nil-deref")
     | _, _ => (st, "bad-op")
   | ["pins", k, v] =>
     match parseInt? k, parseInt? v with
     | some k, some v =>
       match t.insertC cmp k v with
-      | some (t', c) => if c == 0 then ({ st with tree := t' }, "done cmp-ok c=0") else (st, "cmp-panic")
+      | some (t', c) =>
+        if c == 0 then
+          let hp := st.heap.bind (·.insert cmp k v)
+          ({ st with tree := t', heap := hp }, "done" ++ heapVerdict hp t' ++ " cmp-ok c=0")
+        else (st, "cmp-panic")
       | none => (st, "nil-deref")
     | _, _ => (st, "bad-op")
   | ["rem", k] =>
@@ -71,7 +107,12 @@ def step (st : DState) (line : String) : DState × String :=
     | some k =>
       match t.removeC cmp k with
       | some (t', c) =>
-        ({ st with tree := t' }, (if t'.count != t.count then "removed" else "absent") ++ " cmp-ok c=" ++ toString c)
+        let hp := st.heap
+        let st := { st with heap := none }
+        let hp := hp.bind (·.remove cmp k)
+        let verdict := heapVerdict hp t'
+        ({ st with tree := t', heap := hp },
+         (if t'.count != t.count then "removed" else "absent") ++ verdict ++ " cmp-ok c=" ++ toString c)
       | none => (st, "nil-deref")
     | _ => (st, "bad-op")
   | ["prem", k] =>
@@ -80,7 +121,9 @@ def step (st : DState) (line : String) : DState × String :=
       match t.removeC cmp k with
       | some (t', c) =>
         if c == 0 then
-          ({ st with tree := t' }, (if t'.count != t.count then "removed" else "absent") ++ " cmp-ok c=0")
+          let hp := st.heap.bind (·.remove cmp k)
+          ({ st with tree := t', heap := hp },
+           (if t'.count != t.count then "removed" else "absent") ++ heapVerdict hp t' ++ " cmp-ok c=0")
         else (st, "cmp-panic")
       | none => (st, "nil-deref")
     | _ => (st, "bad-op")
@@ -132,8 +175,13 @@ def step (st : DState) (line : String) : DState × String :=
     | some k, some j => (st, pOut kind j (t.reverseTraverseStartingAt cmp k (pVisitor kind j) (0, [])).1)
     | _, _ => (st, "bad-op")
   | ["dumpapi"] => (st, "lines=" ++ toString t.count ++ " keys-ok unchanged")
-  | ["dump"] => (st, dumpT t.root ++ " parents=ok")
-  | ["inv"] => (st, "ok")
+  | ["dump"] =>
+    -- printed from the POINTER-LEVEL model: the tree its links describe; `parents=ok` iff every parent link of that
+    -- structure is the node the walk came from and the root has none
+    match st.heap.bind (·.abs) with
+    | some x => (st, dumpT x ++ " parents=ok" ++ (if heapAgrees st.heap t then "" else " HEAP-MODEL-SPLIT"))
+    | none => (st, dumpT t.root ++ " parents=BAD-in-heap-model")
+  | ["inv"] => (st, if heapAgrees st.heap t then "ok" else "HEAP-MODEL-SPLIT")
   | _ => (st, "bad-op")
 
 def main : IO Unit := Proto.run step { div10 := false, tree := Tree.empty }
